@@ -68,6 +68,20 @@ impl Fs {
     pub open spec fn safe(self) -> bool { forall|p: PathId| #[trigger] self.state(p) is Partial ==> is_tmp(p) }
 }
 
+pub broadcast proof fn lemma_state_set(fs: Fs, p: PathId, s: FileState, q: PathId)
+    ensures #[trigger] fs.set(p, s).state(q) == (if q == p { s } else { fs.state(q) }),
+{}
+pub broadcast proof fn lemma_safe_set(fs: Fs, p: PathId, s: FileState)
+    requires fs.safe(), s is Partial ==> is_tmp(p),
+    ensures #[trigger] fs.set(p, s).safe(),
+{
+    assert forall|q: PathId| #[trigger] fs.set(p, s).state(q) is Partial implies is_tmp(q) by {
+        lemma_state_set(fs, p, s, q);
+        if q != p { assert(fs.state(q) is Partial); }
+    }
+}
+pub broadcast group group_fs { axiom_set_ext, axiom_no_name_no_ext, lemma_state_set, lemma_safe_set }
+
 // ---- JSON ---------------------------------------------------------------------------------------------------------
 /// the text serde_json::to_writer_pretty writes for a value (uninterpreted)
 pub uninterp spec fn json_of<T: ?Sized>(obj: &T) -> Seq<char>;
